@@ -78,11 +78,17 @@ def get_ast(func):
     return cands[0][0], cands[0][1], path
 
 
-def is_repo_function(func, prefix='placement'):
-    mod = getattr(func, '__module__', None) or ''
-    return isinstance(func, types.FunctionType) and (
-        mod == prefix or mod.startswith(prefix + '.')) and \
-        not mod.startswith(prefix + '.tests')
+REPO = os.environ.get('PYVC_REPO', '/repo')
+
+
+def is_repo_function(func):
+    """A Python function whose code lives in the working tree (a functools
+    wrapper defined in a library reports the wrapped module name, so the
+    code object's file decides)."""
+    if not isinstance(func, types.FunctionType):
+        return False
+    fn = func.__code__.co_filename
+    return fn.startswith(REPO + '/placement/') and '/tests/' not in fn
 
 
 def assigned_names(nodes):
